@@ -1,14 +1,27 @@
 import MongoModel.Wire
 import MongoModel.DateTime
+import MongoModel.ExprOps
 open MongoModel MongoModel.Wire
 
 namespace Driver
+
+/-- `T` / `F` -/
+def parseTz : String → Option Bool
+  | "T" => some true
+  | "F" => some false
+  | _ => none
 
 /-- commands:
       `patch v`  → `patch v`
       `aware v`  → `makeAware v`
       `c18 v`    → `patch v | makeAware (patch v) | AllDates Normal v | AllDates AwareUtc v |
-                    the milliseconds (UTC) of the datetimes of v in document order` -/
+                    the milliseconds (UTC) of the datetimes of v in document order`
+      `aggpipe T|F v` → `aggPipeline tz v | AllDates (ReadForm tz) (aggPipeline tz v)`
+                    (what `Collection.aggregate` hands `process_pipeline` for the pipeline `v`)
+      `cmpdate T|F stored literal` → for each of `$eq $ne $gt $gte $lt $lte`, separated by `|`:
+                    `compareOp op (readDoc tz (patch stored)) (aggPipeline tz literal)` — an
+                    expression comparison between a field holding `stored` and the value `literal`
+                    written in the pipeline -/
 def handleC18 (ts : List String) : Option (List String) :=
   match ts with
   | "patch" :: r =>
@@ -26,6 +39,23 @@ def handleC18 (ts : List String) : Option (List String) :=
         ++ showBool (allDatesB normalB v) ++ ["|"] ++ showBool (allDatesB awareUtcB v) ++ ["|"]
         ++ (datesOf v).map (fun d => toString (msOf d.1 d.2)))
     | _ => some ["?parse"]
+  | "aggpipe" :: tz :: r =>
+    match parseTz tz, parseVal r with
+    | some t, some (v, []) =>
+      some (showVal (aggPipeline t v) ++ ["|"]
+        ++ showBool (allDatesB (readFormB t) (aggPipeline t v)))
+    | _, _ => some ["?parse"]
+  | "cmpdate" :: tz :: r =>
+    match parseTz tz, parseVal r with
+    | some t, some (stored, r') =>
+      match parseVal r' with
+      | some (lit, []) =>
+        let a := readDoc t (patch stored)
+        let b := aggPipeline t lit
+        some (List.intercalate ["|"]
+          (["$eq", "$ne", "$gt", "$gte", "$lt", "$lte"].map (fun op => showR showVal (Expr.compareOp op a b))))
+      | _ => some ["?parse"]
+    | _, _ => some ["?parse"]
   | _ => none
 
 end Driver
